@@ -270,13 +270,28 @@ func (ms *Modules) FindModule(n Node) *Module {
 	return m[name]
 }
 
+// loaded returns every module and submodule that has been read in, each once:
+// those filed in Modules and SubModules, and the ones without revision that a
+// dated one of the same name hides from those maps.
+func (ms *Modules) loaded() []*Module {
+	var out []*Module
+	seen := map[*Module]bool{}
+	for _, reg := range []map[string]*Module{ms.Modules, ms.SubModules, ms.unrevisioned} {
+		for _, m := range reg {
+			if !seen[m] {
+				seen[m] = true
+				out = append(out, m)
+			}
+		}
+	}
+	return out
+}
+
 // revisions returns the loaded modules named name, latest revision first.
 func (ms *Modules) revisions(name string) []*Module {
 	var out []*Module
-	seen := map[*Module]bool{}
-	for _, m := range ms.Modules {
-		if m.Name == name && !seen[m] {
-			seen[m] = true
+	for _, m := range ms.loaded() {
+		if m.Name == name && m.Kind() == "module" {
 			out = append(out, m)
 		}
 	}
@@ -336,14 +351,10 @@ func (ms *Modules) process() []error {
 	// Collect the list of modules we know about now so when we range
 	// below we don't pick up new modules.  We assume the user tells
 	// us explicitly which modules they are interested in.
-	for _, m := range ms.Modules {
-		mods = append(mods, m)
-	}
 	// A submodule that no loaded module includes (an older revision, say)
-	// has includes and imports of its own.
-	for _, m := range ms.SubModules {
-		mods = append(mods, m)
-	}
+	// has includes and imports of its own, and so has a module without
+	// revision that a dated one of its name hides from the maps.
+	mods = ms.loaded()
 	for _, m := range mods {
 		if err := ms.include(m); err != nil {
 			errs = append(errs, err)
@@ -407,13 +418,7 @@ func (ms *Modules) Process() []error {
 	// their augments in a fixed order, so that the outcome (which grouping
 	// of a cycle is reported, the winner of conflicting augments and the
 	// wording of the error about them) does not change from run to run.
-	all := make([]*Module, 0, len(ms.Modules)+len(ms.SubModules))
-	for _, m := range ms.Modules {
-		all = append(all, m)
-	}
-	for _, m := range ms.SubModules {
-		all = append(all, m)
-	}
+	all := ms.loaded()
 	sort.SliceStable(all, func(i, j int) bool {
 		if all[i].Kind() != all[j].Kind() {
 			return all[i].Kind() < all[j].Kind()
